@@ -921,6 +921,17 @@ pub fn line_typechar_group(prop: &'static str) -> Space {
             let mut p = Parser::new();
             let mut m = MState::Closed;
             for k in 1..=n {
+                if k == 2 && prop == "C19" {
+                    // an unfragmented sentence arriving while the group is open reports ITS OWN type
+                    let mut up = vec![b'0'; 28];
+                    up[0] = c;
+                    let uline = sentence(1, 1, b"", &up, 0);
+                    let (uexp, um) = asm::step(&m, &uline, false, subj::NOALLOC);
+                    let uout = p.parse(&uline, false);
+                    m = um;
+                    l.outcome(uout.digest());
+                    judge_c19(l, &uline, false, &uexp, &uout, false);
+                }
                 let payload: Vec<u8> = if k == 1 { b"1000".to_vec() } else { vec![c, b'0', b'0'] };
                 let line = sentence(n, k, id, &payload, 0);
                 let (exp, m1) = asm::step(&m, &line, decode, subj::NOALLOC);
